@@ -428,6 +428,14 @@ func (ts *TermStore) BVBin(op string, a, b *Term) *Term {
 		}
 		return ts.BVConst(w, r)
 	}
+	// unsigned division/remainder of a zero-extended narrow value by a small constant is
+	// done at the narrow width (hash % capacity with a narrow hash model)
+	if (op == "bvurem" || op == "bvudiv") && a.Op == "zero_extend" && b.Const && b.B == nil && w <= 64 && b.U != 0 {
+		in := a.Args[0]
+		if iw := in.Sort.W; iw < 64 && b.U < (uint64(1)<<uint(iw)) {
+			return ts.ZeroExt(ts.BVBin(op, in, ts.BVConst(iw, b.U)), w)
+		}
+	}
 	// light algebraic simplification
 	switch op {
 	case "bvadd", "bvor", "bvxor":
@@ -550,6 +558,12 @@ func (ts *TermStore) Extract(hi, lo int, a *Term) *Term {
 		}
 		if w < inner.Sort.W {
 			return ts.Extract(hi, lo, inner)
+		}
+	}
+	// a byte of a logically right-shifted word is a byte of the word
+	if a.Op == "bvlshr" && a.Args[1].Const && a.Args[1].B == nil && a.Sort.W <= 64 {
+		if k := int(a.Args[1].U); k >= 0 && hi+k < a.Sort.W {
+			return ts.Extract(hi+k, lo+k, a.Args[0])
 		}
 	}
 	if a.Op == "concat" {
